@@ -590,12 +590,13 @@ def run(ctx):
                                    "log": log}, True)
         return C.finish(ctx)
 
-    nviol = [0]
+    nviol = {}
 
     def report(name, obj, nfi=False):
-        if nviol[0] < 4:
+        cat = name.rstrip("0123456789")
+        nviol[cat] = nviol.get(cat, 0) + 1
+        if nviol[cat] <= 2:                       # at most two replays per kind of failure
             C.violation(ctx, name, obj, no_failing_input=nfi)
-        nviol[0] += 1
 
     # ---- unit level: writev_all / write_all / read_all ---------------------
     ulines = gen_unit_cases(ctx)
